@@ -23,6 +23,8 @@ MACROS = r"""
 (define-syntax my-repeat (syntax-rules () ((_ n body) (let loop ((i 0)) (if (< i n) (begin body (loop (+ i 1))) i)))))
 (define-syntax my-let1 (syntax-rules () ((_ x e body) ((lambda (x) body) e))))
 (define-syntax inc-all! (syntax-rules () ((_ v ...) (begin (set! v (+ v 1)) ...))))
+(define-syntax my-case2 (syntax-rules (otherwise) ((_ e (otherwise r)) r) ((_ e (v r)) (if (= e v) r 'no-match))))
+(define-syntax def-lister (syntax-rules () ((_ name v) (define-syntax name (syntax-rules () ((_) (list v v)))))))
 (define-syntax er-or2 (er-macro-transformer (lambda (form rename compare)
   (let ((a (cadr form)) (b (car (cddr form))))
     (list (rename 'let) (list (list (rename 't) a)) (list (rename 'if) (rename 't) (rename 't) b))))))
@@ -85,6 +87,19 @@ def m_incall(vs):
     return N(begin(*[set_(v, prim("+", V(v), I(1))) for v in vs]).core, "(inc-all! %s)" % " ".join(vs))
 
 
+def m_case2(e, var, r):
+    return N(if_(prim("=", e, V(var)), r, S("no-match")).core, "(my-case2 %s (%s %s))" % (e.scm, var, r.scm))
+
+
+def m_case2_lit(e, r):
+    return N(r.core, "(my-case2 %s (otherwise %s))" % (e.scm, r.scm))
+
+
+def m_def_lister(name, v):
+    """internal (def-lister name v) at the head of a body, followed by uses (name) = (list v v)"""
+    return N(["prim", "void", []], "(def-lister %s %s)" % (name, v)), N(prim("list", V(v), V(v)).core, "(%s)" % name)
+
+
 def local_syntax(kind, outer, inner_binder, inner_val):
     """(let-syntax ((m (syntax-rules () ((_) OUTER)))) ((lambda (INNER) (list (m) INNER)) val))  ->  macro sees OUTER of its definition"""
     core = app(lam([inner_binder], None, prim("list", V(outer), V(inner_binder))), [inner_val]).core
@@ -108,6 +123,14 @@ def bodies(rng, u):
     out.append([emit(local_syntax("let-syntax", u[0], u[1], I(55))), emit(local_syntax("letrec-syntax", u[2], u[3], I(66)))])
     for nm in ("er-or2", "sc-or2", "rsc-or2"):
         out.append([emit(m_or2(nm, FALSE, U[0])), emit(m_or2(nm, U[1], U[2])), emit(m_or2(nm, m_or2(nm, FALSE, FALSE), U[3]))])
+    # literals: a user variable spelled like a literal of the macro is NOT the literal (it has a different binding)
+    out.append([emit(m_case2(I(1), u[0], S("taken"))), emit(m_case2(I(7), u[1], S("taken"))), emit(m_case2(U[2], u[2], U[3]))])
+    out.append([emit(m_case2_lit(I(5), U[0])), emit(m_case2(I(2), u[1], m_case2_lit(I(0), U[2])))])
+    # a macro-defining macro used INSIDE the scope of the user variables: the generated macro's free identifiers
+    # (list) still mean what they meant where the outer macro was defined
+    d1, use1 = m_def_lister("lgone", u[1])
+    d2, use2 = m_def_lister("lgtwo", u[3])
+    out.append([d1, d2, emit(use1), emit(use2), emit(m_or2("my-or2", FALSE, use1))])
     # combinations: macro uses nested in macro uses
     out.append([emit(m_or2("my-or2", m_or3([FALSE, FALSE]), m_helper(U[0]))), emit(m_repeat(2, m_swap(u[0], u[1]))), emit(prim("list", U[0], U[1]))])
     out.append([emit(m_let1(u[3], m_or2("my-or2", FALSE, U[1]), m_lists([[U[3], m_get7()], [m_helper(U[3])]])))])
@@ -118,7 +141,7 @@ def bodies(rng, u):
 # procedures (none of them is written by the user code inside the scope of the renamed variables)
 POOL = ["t", "tmp", "loop", "i", "helper", "x", "a", "b", "e", "r", "n", "body", "name", "val", "v",
         "if", "let", "set!", "begin", "list", "define", "define-syntax", "syntax-rules", "quote", "cond", "else", "or", "and", "not", "car", "cons", "<",
-        "form", "rename", "compare", "env", "lm", "get7", "my-or2", "swap!"]
+        "form", "rename", "compare", "env", "lm", "get7", "my-or2", "swap!", "otherwise"]
 
 
 def rename(node, mapping):
@@ -156,6 +179,8 @@ def run():
             base = cg.wrap_toplevel(emit(app(lam(u, None, body), [I(1), I(2), I(3), I(4)])))
             # identifiers the user code writes inside the scope of the renamed variables: a consistent renaming must not capture them
             used = set(re.findall(r"[A-Za-z!?*<>=/+\-_][A-Za-z0-9!?*<>=/+\-_]*", body.scm)) | {"emit"}
+            if "'" in body.scm:
+                used.add("quote")          # 'x is (quote x): the user code writes the keyword
             pool = [p for p in POOL if p not in used]          # a renaming must not capture an identifier the user code writes
             rens = [dict(zip(u, ["fresh%d" % k for k in range(4)]))]
             for p in pool[:]:
